@@ -236,6 +236,21 @@ PROPS = {
         "rule": "cases = transitions of the bounded TLC instance replayed against the contracts; distinct = distinct (abstract pre-state, action) pairs",
         "assumptions": ["soroban-env-host test mode implements on-chain semantics incl. the built-in Stellar asset contract", "bounds: 2 tokens x 3 units, 2 spenders, 2 receivers, amounts -1..3"],
     },
+    "C17": {
+        "title": "Only current operators act via the operators contract; calls forward intact",
+        "policy": {"guards": ["is_operator", "membership", "target_ok", "named_auth", "role_auth"],
+                   "fields": ["operators"], "events": ["probe_call", "operator_added", "operator_removed"], "rets": ["Execute"]},
+        "jobs": [
+            {"kind": "graph", "spec": "MC_C17", "module": "Operators",
+             "evkinds": ["probe_call", "operator_added", "operator_removed", "ownership_transferred"],
+             "need": ["Execute/ok", "Execute/is_operator", "Execute/named_auth", "Execute/target_ok", "AddOperator/ok",
+                      "AddOperator/membership", "RemoveOperator/ok", "RemoveOperator/membership", "AddOperator/role_auth"],
+             "control": sibling_control(["op", "auth", "acct", "target"], "arg")},
+        ],
+        "level_text": "TLC proves member-and-authorised-only forwarding, owner-only set changes (add absent / remove present) and intact forwarding (one probe record with the same target, function and argument; value returned unchanged; failing target fails the whole call) on every transition of a finite instance whose membership is three-valued (never / member / former); all transitions are executed against the real operators contract with recording probe contracts as targets.",
+        "rule": "cases = transitions of the bounded TLC instance replayed against the contracts; distinct = distinct (membership history state, action) pairs",
+        "assumptions": ["soroban-env-host test mode implements on-chain semantics", "bounds: 2 candidate operators, 2 owners, 2 probe targets, 4 return-value kinds"],
+    },
 }
 
 NOT_YET = {}
